@@ -14,6 +14,16 @@ COMMON_ASSUMPTIONS = [
     "sequentially consistent, single-threaded execution model (CBMC); compiler code generation and hardware atomicity are outside the claim",
 ]
 
+# Failed checks that are artefacts of the engine's memory model, not behaviours of the code (DESIGN.md §1.7).  A failed check
+# matching one of these (function regex AND description regex) is dropped before classification; everything else counts.
+ENGINE_ARTEFACTS = [
+    {"id": "zst-memset",
+     "function": r"^std::ptr::write_bytes::<\[[a-z0-9]+; 0\]>$",
+     "description": r"memset destination region writeable",
+     "why": "MaybeUninit::<[T;0]>::zeroed() (ByteValued::zeroed) is a write_bytes of 0 bytes through a dangling, aligned pointer - "
+            "defined behaviour in Rust; CBMC's memset precondition demands a writable object even for size 0"},
+]
+
 PROPS = {}
 
 PROPS["C19"] = {
@@ -88,5 +98,36 @@ PROPS["C09"] = {
               "Pre-state = three symbolic pages set; one operation with unconstrained arguments; read-out at a symbolic page index and byte address; "
               "enlarge by 1 byte / by one page; slices of depth 1 and 2 with unconstrained (wrapping) offsets",
     "outside": "bitmaps larger than 129 pages; arbitrary pre-states with more than three marked pages; symbolic page/byte sizes (container shapes are grid points)",
+    "assumptions": [],
+}
+
+PROPS["C06"] = {
+    "groups": [
+        {"crate": "std", "quick": ["c06::"], "jobs": 16, "mem_gb": 8, "timeout_s": 900, "stubbed": True},
+    ],
+    "bounds": "transfer length 0..=8; guest and local addresses at every offset of 16-byte 8-aligned buffers (every address mod 8 on both sides); "
+              "entry points at slice level: write, write_slice, read, read_slice, copy_from/copy_to (1-byte elements), read_volatile_from(&[u8]), "
+              "write_volatile_to(&mut [u8]), write_obj/read_obj for u8,u16,u32,u64,i64, store/load for u8,u16,u32,u64,usize",
+    "outside": "that one naturally aligned volatile access of <= 8 bytes is emitted as one instruction and is single-copy atomic on the hardware; "
+               "the 'schedules' half (old-or-new under a concurrent writer) follows from that hardware fact and is not decided here; transfers > 8 bytes",
+    "assumptions": ["Kani stubs (harness/std/src/trace.rs) replace core::ptr::read_volatile/write_volatile and core::sync::atomic::atomic_load/atomic_store by logging versions that perform the plain access"],
+}
+
+PROPS["C17"] = {
+    "groups": [
+        {"crate": "std", "quick": ["c17::"], "jobs": 8, "mem_gb": 6, "timeout_s": 600},
+    ],
+    "bounds": "(a) standard build: parent = every window of a 32-byte buffer, offset and element count unconstrained, element types u8,u16,u32,u64,u128,[u8;3],Le32",
+    "outside": "",
+    "assumptions": [],
+}
+
+PROPS["C18"] = {
+    "groups": [
+        {"crate": "std", "quick": ["c18::"], "jobs": 8, "mem_gb": 6, "timeout_s": 600},
+    ],
+    "bounds": "slice level: container = every window of a 16-byte buffer with a recording bitmap, address unconstrained usize (stream forms: addresses valid for a non-empty access), "
+              "empty buffers, objects [u8;0]/[u16;0]/[u64;0], zero-count stream transfers over a <= 3-byte &[u8]/&mut [u8], copies of <= 3 zero-sized elements, empty container",
+    "outside": "",
     "assumptions": [],
 }
